@@ -268,6 +268,8 @@ func (f *Fixture) Table() map[string]interface{} {
 		"tb":  func(id int64, b bool) bool { rec.add(id, b); return b },
 		"ix1": int64(1),
 		// float64 values no literal can spell
+		// zero-length containers: a forRange over them runs its body not once
+		"VE": []int64{}, "ME": map[string]int64{},
 		"NNaN": math.NaN(), "NPInf": math.Inf(1), "NNInf": math.Inf(-1),
 		"pass": func(v interface{}) interface{} { return v },
 		// several results: the rule gets the first one
